@@ -1,37 +1,163 @@
-(** The server transition system: connections, per-connection database
-    selection, command dispatch (server.rs process_frame /
-    process_normal_command).  One [Frame] event of one connection is one step
-    (single command thread, server.rs:367-422). *)
-From Ferrous Require Import Base.Bytes Model.Resp Model.Types Model.Glob Model.Strings
-  Model.Lists Model.ZSets Model.Streams.
+(** The server transition system (server.rs): connections with their
+    authentication / database selection / transaction / watch state, the WATCH
+    tracker of engine.rs, command dispatch (process_frame,
+    process_normal_command, handle_exec), the AOF log.  One [Frame] event of one
+    connection is one step (single command thread, server.rs:367-422). *)
+From Ferrous Require Import Base.Bytes Generated Model.Resp Model.Types Model.Glob Model.Strings
+  Model.Lists Model.ZSets Model.Streams Model.Scan Model.PubSub Model.Lua.
 Open Scope Z_scope.
 
-Record conn := { c_db : Z }.
-Definition new_conn : conn := {| c_db := 0 |}.
+Fixpoint nodup_b (l : list bytes) : list bytes :=
+  match l with [] => [] | x :: r => if bmem x r then nodup_b r else x :: nodup_b r end.
 
-Record server := {
-  s_dbs : list db;                 (* 16 databases *)
-  s_conns : list (Z * conn)
-}.
-Definition init_server : server := {| s_dbs := repeat empty_db 16; s_conns := [] |}.
-
+(** ---- small maps keyed by Z ---- *)
 Fixpoint zlookup {A} (k : Z) (l : list (Z * A)) : option A :=
   match l with [] => None | (k', v) :: r => if k =? k' then Some v else zlookup k r end.
 Fixpoint zremove {A} (k : Z) (l : list (Z * A)) : list (Z * A) :=
   match l with [] => [] | (k', v) :: r => if k =? k' then zremove k r else (k', v) :: zremove k r end.
 Definition zset_ {A} (k : Z) (v : A) (l : list (Z * A)) := (k, v) :: zremove k l.
-
-Definition get_db (s : server) (i : Z) : db := nth (Z.to_nat i) (s_dbs s) empty_db.
 Fixpoint list_set {A} (l : list A) (i : nat) (x : A) : list A :=
   match l, i with
   | [], _ => []
   | _ :: r, O => x :: r
   | y :: r, S i' => y :: list_set r i' x
   end.
+
+(** ---- WATCH tracker of one database (engine.rs ShardWatchTracker, per shard) ---- *)
+Record tracker := {
+  t_active : list (Z * Z);        (* shard -> active_watchers (usize, wrapping) *)
+  t_counters : list (bytes * Z);  (* key -> last modification stamp *)
+  t_global : list (Z * Z)         (* shard -> global_counter *)
+}.
+Definition empty_tracker : tracker := {| t_active := []; t_counters := []; t_global := [] |}.
+Definition active_of (t : tracker) (sh : Z) : Z := match zlookup sh (t_active t) with Some n => n | None => 0 end.
+Definition counter_of (t : tracker) (k : bytes) : Z := match alookup k (t_counters t) with Some n => n | None => 0 end.
+Definition global_of (t : tracker) (sh : Z) : Z := match zlookup sh (t_global t) with Some n => n | None => 0 end.
+
+(** register_watch: active += 1, baseline = the key's counter *)
+Definition register_watch (t : tracker) (k : bytes) : Z * tracker :=
+  let sh := shard_of k in
+  (counter_of t k,
+   {| t_active := zset_ sh ((active_of t sh + 1) mod two64) (t_active t);
+      t_counters := t_counters t; t_global := t_global t |}).
+(** unregister_watch: fetch_sub(1), wrapping below zero *)
+Definition unregister_watch (t : tracker) (k : bytes) : tracker :=
+  let sh := shard_of k in
+  {| t_active := zset_ sh ((active_of t sh - 1) mod two64) (t_active t);
+     t_counters := t_counters t; t_global := t_global t |}.
+(** mark_key_modified: nothing unless some watch is active in the key's shard *)
+Definition mark (t : tracker) (k : bytes) : tracker :=
+  let sh := shard_of k in
+  if active_of t sh =? 0 then t else
+  let g := global_of t sh + 1 in
+  {| t_active := t_active t; t_counters := aset k g (t_counters t); t_global := zset_ sh g (t_global t) |}.
+Definition mark_all (t : tracker) (ks : list bytes) : tracker := fold_left mark ks t.
+
+(** ---- which keys a command marks (engine.rs mark_modified call sites; the
+    table Generated.engine_census says which engine functions mark at all) ---- *)
+Definition was_expired (now : Z) (d : db) (k : bytes) : bool :=
+  match get_entry d k with Some e => expired now e | None => false end.
+Fixpoint bulk_args (l : list frame) : list bytes :=
+  match l with [] => [] | FBulk b :: r => b :: bulk_args r | _ :: r => bulk_args r end.
+(** keys deleted by DEL, in order (a repeated key is deleted once) *)
+Fixpoint del_marks (d : db) (ks : list bytes) : list bytes :=
+  match ks with
+  | [] => []
+  | k :: r => if amem k (d_data d) then k :: del_marks (del_entry d k) r else del_marks d r
+  end.
+(** MGET: keys whose expired entry is removed on the way, up to the first non-string *)
+Fixpoint mget_marks (now : Z) (d : db) (args : list frame) : list bytes :=
+  match args with
+  | FBulk k :: r =>
+      match get_string now d k with
+      | (Some _, d') => (if was_expired now d k then [k] else []) ++ mget_marks now d' r
+      | (None, _) => []
+      end
+  | _ => []
+  end.
+Fixpoint mset_marks (args : list frame) : list bytes :=
+  match args with
+  | FBulk k :: FBulk _ :: r => k :: mset_marks r
+  | _ => []
+  end.
+
+(** keys present before and gone after (lazy removal of expired entries by get) *)
+Definition removed_keys (d d' : db) : list bytes :=
+  filter (fun k => negb (amem k (d_data d'))) (map fst (d_data d)).
+
+Definition marks_strings (d d' : db) (name : bytes) (parts : list frame) (reply : frame) : list bytes :=
+  let k1 := match nth_arg parts 1 with Some k => [k] | None => [] end in
+  let ok := negb (is_error reply) in
+  if beq name (bs "SET") then (match reply with FSimple _ => k1 | _ => [] end)
+  else if beq name (bs "SETEX") || beq name (bs "PSETEX") then (if ok then k1 else [])
+  else if beq name (bs "SETNX") then (match reply with FInt 1 => k1 | _ => [] end)
+  else if beq name (bs "GET") || beq name (bs "MGET") then removed_keys d d'
+  else if beq name (bs "GETSET") then (if ok && (len parts =? 3) then k1 else [])
+  else if beq name (bs "MSET") then
+    (if (len parts <? 3) || (len parts mod 2 =? 0) then [] else mset_marks (tl parts))
+  else if beq name (bs "DEL") then (if len parts <? 2 then [] else del_marks d (bulk_args (tl parts)))
+  else if beq name (bs "EXPIRE") || beq name (bs "PEXPIRE") || beq name (bs "PERSIST") then
+    (match reply with FInt 1 => k1 | _ => [] end)
+  else if beq name (bs "FLUSHDB") then (if ok then map fst (d_data d) else [])
+  else if beq name (bs "INCR") || beq name (bs "DECR") || beq name (bs "INCRBY") || beq name (bs "DECRBY")
+          || beq name (bs "APPEND") || beq name (bs "SETRANGE") then
+    (match reply with FInt _ => k1 | _ => [] end)
+  else if beq name (bs "RENAME") then
+    (match reply with FSimple _ => k1 ++ (match nth_arg parts 2 with Some n => [n] | None => [] end) | _ => [] end)
+  else if beq name (bs "RENAMENX") then
+    (match reply with FInt 1 => k1 ++ (match nth_arg parts 2 with Some n => [n] | None => [] end) | _ => [] end)
+  else [].
+
+(** ---- connections ---- *)
+Record conn := {
+  c_db : Z;
+  c_auth : bool;                         (* ConnectionState::Authenticated *)
+  c_intx : bool;                         (* transaction_state.in_transaction *)
+  c_queue : list (list frame);           (* queued_commands *)
+  c_watched : list (bytes * Z);          (* watched_keys: key -> baseline *)
+  c_closing : bool
+}.
+Definition new_conn (authed : bool) : conn :=
+  {| c_db := 0; c_auth := authed; c_intx := false; c_queue := []; c_watched := []; c_closing := false |}.
+
+Record server := {
+  s_dbs : list db;                 (* 16 databases *)
+  s_trk : list tracker;            (* 16 trackers *)
+  s_conns : list (Z * conn);
+  s_password : option bytes;
+  s_aof : list (list frame);       (* appended commands, newest first *)
+  s_pubsub : pubsub                (* PubSubManager (Model/PubSub.v) *)
+}.
+Definition init_server (pw : option bytes) : server :=
+  {| s_dbs := repeat empty_db 16; s_trk := repeat empty_tracker 16; s_conns := [];
+     s_password := pw; s_aof := []; s_pubsub := ps_init |}.
+
+Definition get_db (s : server) (i : Z) : db := nth (Z.to_nat i) (s_dbs s) empty_db.
+Definition get_trk (s : server) (i : Z) : tracker := nth (Z.to_nat i) (s_trk s) empty_tracker.
 Definition set_db (s : server) (i : Z) (d : db) : server :=
-  {| s_dbs := list_set (s_dbs s) (Z.to_nat i) d; s_conns := s_conns s |}.
+  {| s_dbs := list_set (s_dbs s) (Z.to_nat i) d; s_trk := s_trk s; s_conns := s_conns s;
+     s_password := s_password s; s_aof := s_aof s; s_pubsub := s_pubsub s |}.
+Definition set_trk (s : server) (i : Z) (t : tracker) : server :=
+  {| s_dbs := s_dbs s; s_trk := list_set (s_trk s) (Z.to_nat i) t; s_conns := s_conns s;
+     s_password := s_password s; s_aof := s_aof s; s_pubsub := s_pubsub s |}.
 Definition set_conn (s : server) (c : Z) (cn : conn) : server :=
-  {| s_dbs := s_dbs s; s_conns := zset_ c cn (s_conns s) |}.
+  {| s_dbs := s_dbs s; s_trk := s_trk s; s_conns := zset_ c cn (s_conns s);
+     s_password := s_password s; s_aof := s_aof s; s_pubsub := s_pubsub s |}.
+(** removal of a connection (EOF / read error: server.rs:600-609; cleanup_connections): the
+    connection goes and PubSubManager::unsubscribe_all drops its subscriptions *)
+Definition del_conn (s : server) (c : Z) : server :=
+  {| s_dbs := s_dbs s; s_trk := s_trk s; s_conns := zremove c (s_conns s);
+     s_password := s_password s; s_aof := s_aof s; s_pubsub := unsubscribe_all (s_pubsub s) c |}.
+Definition set_pubsub (s : server) (p : pubsub) : server :=
+  {| s_dbs := s_dbs s; s_trk := s_trk s; s_conns := s_conns s;
+     s_password := s_password s; s_aof := s_aof s; s_pubsub := p |}.
+Definition log_aof (s : server) (parts : list frame) : server :=
+  {| s_dbs := s_dbs s; s_trk := s_trk s; s_conns := s_conns s;
+     s_password := s_password s; s_aof := parts :: s_aof s; s_pubsub := s_pubsub s |}.
+
+(** a new connection is Authenticated at once when no password is configured (server.rs:443-448) *)
+Definition connect (s : server) (c : Z) : server :=
+  set_conn s c (new_conn (match s_password s with None => true | Some _ => false end)).
 
 (** str::trim on the ASCII subset *)
 Definition is_space (c : Z) : bool := (c =? 32) || ((9 <=? c) && (c <=? 13)).
@@ -48,8 +174,14 @@ Definition exec_db (now : Z) (d : db) (name : bytes) (parts : list frame) (oracl
   | None =>
   match exec_zsets now d name parts oracle with
   | Some r => Some r
-  | None => exec_streams now d name parts oracle
-  end end end.
+  | None =>
+  match exec_streams now d name parts oracle with
+  | Some r => Some r
+  | None =>
+  match exec_scan now d name parts oracle with
+  | Some r => Some r
+  | None => exec_scripts now d name parts oracle
+  end end end end end.
 
 Definition h_randomkey (d : db) (parts : list frame) (oracle : option frame) : frame :=
   if negb (len parts =? 1) then r_err else
@@ -61,12 +193,67 @@ Definition h_randomkey (d : db) (parts : list frame) (oracle : option frame) : f
          end
   end.
 
-(** process_normal_command for connection [c] with database [dbi] *)
-Definition normal_command (now : Z) (s : server) (c : Z) (dbi : Z) (parts : list frame)
+Definition h_auth (s : server) (c : Z) (parts : list frame) : frame * server :=
+  match parts with
+  | [_; FBulk p] =>
+      (* String::from_utf8 must succeed; then byte equality *)
+      match s_password s with
+      | Some pw =>
+          if beq p pw then
+            (r_ok, match zlookup c (s_conns s) with
+                   | Some cn => set_conn s c {| c_db := c_db cn; c_auth := true; c_intx := c_intx cn;
+                                                 c_queue := c_queue cn; c_watched := c_watched cn;
+                                                 c_closing := c_closing cn |}
+                   | None => s end)
+          else (r_err, s)
+      | None => (r_err, s)
+      end
+  | [_; _] => (r_err, s)
+  | _ => (r_err, s)
+  end.
+
+Definition mem_name (n : bytes) (l : list bytes) : bool := bmem n l.
+
+(** the verification hook command (cfg ferrous_verif): sweeper control is a no-op for the
+    model (its sweeper runs only on explicit events); INDEX dumps the deadline index *)
+Definition sign01 (o : option Z) (now : Z) : Z :=
+  match o with None => -1 | Some t => if t <=? now then 0 else 1 end.
+Definition index_rows (now : Z) (d : db) : list frame :=
+  let keys := bsort (nodup_b (map fst (d_data d) ++ map fst (d_index d))) in
+  map (fun k => FArray [FBulk k;
+                        FInt (sign01 (match get_entry d k with Some e => e_exp e | None => None end) now);
+                        FInt (sign01 (alookup k (d_index d)) now);
+                        FInt (if amem k (d_data d) then 1 else 0)]) keys.
+Definition h_verif (now : Z) (s : server) (parts : list frame) : frame :=
+  match parts with
+  | [_; FBulk a; FBulk b] =>
+      if beq (upper a) (bs "SWEEP") then r_ok
+      else if beq (upper a) (bs "INDEX") then
+        match parse_usize b with
+        | Some n => FArray (index_rows now (nth (Z.to_nat n) (s_dbs s) empty_db))
+        | None => r_err
+        end
+      else r_err
+  | _ => r_err
+  end.
+
+(** lazy expiry (bdd75e8): whatever the command is, keys past their deadline are gone from the
+    selected database before it runs, and their WATCHers are told *)
+Definition lazy_expire (now : Z) (s : server) (dbi : Z) (name : bytes) (parts : list frame) : server :=
+  if lazy_expiry_before_dispatch then
+    match expire_before now (get_db s dbi) name parts with
+    | (d1, removed) => set_trk (set_db s dbi d1) dbi (mark_all (get_trk s dbi) removed)
+    end
+  else s.
+
+(** the body of process_normal_command after the lazy expiry: AOF record, dispatch *)
+Definition dispatch_command (now : Z) (s : server) (c : Z) (dbi : Z) (parts : list frame)
            (oracle : option frame) : frame * server :=
   match parts with
   | FBulk nm :: _ =>
       let name := upper nm in
+      (* AOF: appended before dispatch whenever the name is a write command *)
+      let s := if mem_name name write_commands then log_aof s parts else s in
       if beq name (bs "PING") then
         (match parts with _ :: a :: _ => a | _ => FSimple (bs "PONG") end, s)
       else if beq name (bs "ECHO") then
@@ -77,37 +264,286 @@ Definition normal_command (now : Z) (s : server) (c : Z) (dbi : Z) (parts : list
             match parse_usize a with
             | Some n => if 16 <=? n then (r_err, s)
                         else match zlookup c (s_conns s) with
-                             | Some _ => (r_ok, set_conn s c {| c_db := n |})
-                             | None => (r_ok, s)       (* connection id 0 inside EXEC: no-op *)
+                             | Some cn => (r_ok, set_conn s c {| c_db := n; c_auth := c_auth cn; c_intx := c_intx cn;
+                                                                 c_queue := c_queue cn; c_watched := c_watched cn;
+                                                                 c_closing := c_closing cn |})
+                             | None => (r_ok, s)       (* connection id 0 inside EXEC: silent no-op *)
                              end
             | None => (r_err, s)
             end
-        | [_; _] => (r_err, s)
         | _ => (r_err, s)
         end
       else if beq name (bs "FLUSHALL") then
         if negb (len parts =? 1) then (r_err, s)
-        else (r_ok, {| s_dbs := map (fun _ => empty_db) (s_dbs s); s_conns := s_conns s |})
+        else (r_ok, {| s_dbs := map (fun _ => empty_db) (s_dbs s);
+                       s_trk := map (fun td => mark_all (fst td) (map fst (d_data (snd td)))) (combine (s_trk s) (s_dbs s));
+                       s_conns := s_conns s; s_password := s_password s; s_aof := s_aof s; s_pubsub := s_pubsub s |})
       else if beq name (bs "RANDOMKEY") then (h_randomkey (get_db s dbi) parts oracle, s)
+      else if beq name (bs "AUTH") then h_auth s 0 parts      (* "AUTH" => self.handle_auth(parts, 0) *)
+      else if beq name (bs "QUIT") then (r_ok, s)
+      else if beq name (bs "VERIF") then (h_verif now s parts, s)
       else
-        match exec_db now (get_db s dbi) name parts oracle with
-        | Some (r, d') => (r, set_db s dbi d')
-        | None => (r_err, s)                        (* unknown command (or not modelled) *)
+        let d := get_db s dbi in
+        match exec_db now d name parts oracle with
+        | Some (r, d') =>
+            let ms := marks_strings d d' name parts r ++ marks_lists d d' name parts r ++ marks_streams d d' name parts r in
+            (r, set_trk (set_db s dbi d') dbi (mark_all (get_trk s dbi) ms))
+        | None => (FError (bs "ERR unknown command '" ++ name ++ bs "'"), s)
         end
   | _ => (r_err, s)
   end.
 
-(** process_frame: the request must be a non-empty array whose first element is a bulk string *)
+(** process_normal_command for connection [c] (0 inside EXEC) with database [dbi] *)
+Definition normal_command (now : Z) (s : server) (c : Z) (dbi : Z) (parts : list frame)
+           (oracle : option frame) : frame * server :=
+  match parts with
+  | FBulk nm :: _ => dispatch_command now (lazy_expire now s dbi (upper nm) parts) c dbi parts oracle
+  | _ => (r_err, s)
+  end.
+
+(** ---- the expiry sweeper (engine.rs expiration_cleanup_loop, after the repair 9fbc313) ---- *)
+(** collect phase: keys whose INDEXED deadline has passed *)
+Definition sweep_collect (now : Z) (d : db) : list bytes :=
+  map fst (filter (fun kt => snd kt <=? now) (d_index d)).
+(** delete phase for one collected key: delete only if the STORED deadline has passed;
+    otherwise repair the index entry *)
+Definition sweep_key (now : Z) (dt : db * tracker) (k : bytes) : db * tracker :=
+  let (d, t) := dt in
+  match get_entry d k with
+  | Some e =>
+      if expired now e then (index_del (del_entry d k) k, mark t k)
+      else match e_exp e with
+           | Some t' => (index_set d k t', t)
+           | None => (index_del d k, t)
+           end
+  | None => (index_del d k, t)
+  end.
+Definition sweep_delete (now : Z) (d : db) (t : tracker) (ks : list bytes) : db * tracker :=
+  fold_left (sweep_key now) ks (d, t).
+
+(** was_modified_since: the counter moved, or the stored entry has expired *)
+Definition was_modified_since (now : Z) (s : server) (dbi : Z) (k : bytes) (baseline : Z) : bool :=
+  (baseline <? counter_of (get_trk s dbi) k) || was_expired now (get_db s dbi) k.
+
+Definition clear_tx (cn : conn) : conn :=
+  {| c_db := c_db cn; c_auth := c_auth cn; c_intx := false; c_queue := []; c_watched := [];
+     c_closing := c_closing cn |}.
+
+(** the queued commands run back to back through process_normal_command with
+    connection id 0 and the database selected when EXEC arrived *)
+Fixpoint exec_queue (now : Z) (s : server) (dbi : Z) (q : list (list frame)) (acc : list frame)
+  : list frame * server :=
+  match q with
+  | [] => (rev acc, s)
+  | parts :: r => match normal_command now s 0 dbi parts None with
+                  | (rep, s') => exec_queue now s' dbi r (rep :: acc)
+                  end
+  end.
+
+Definition h_exec (now : Z) (s : server) (c : Z) (cn : conn) : frame * server :=
+  if negb (c_intx cn) then (r_err, s) else
+  if existsb (fun kb => was_modified_since now s (c_db cn) (fst kb) (snd kb)) (c_watched cn)
+  then (FNullArray, set_conn s c (clear_tx cn))
+  else
+    let s1 := set_conn s c (clear_tx cn) in
+    match exec_queue now s1 (c_db cn) (c_queue cn) [] with
+    | (reps, s2) => (FArray reps, s2)
+    end.
+
+(** WATCH: registers key by key under the connection's current database *)
+Fixpoint watch_loop (t : tracker) (args : list frame) (w : list (bytes * Z))
+  : option (tracker * list (bytes * Z)) :=
+  match args with
+  | [] => Some (t, w)
+  | FBulk k :: r => match register_watch t k with
+                    | (b, t') => watch_loop t' r (aset k b w)
+                    end
+  | _ :: _ => None
+  end.
+(** on a non-bulk argument the handler answers an error having already registered
+    the keys before it (they stay in watched_keys) *)
+Fixpoint watch_loop_partial (t : tracker) (args : list frame) (w : list (bytes * Z))
+  : tracker * list (bytes * Z) * bool :=
+  match args with
+  | [] => (t, w, true)
+  | FBulk k :: r => match register_watch t k with
+                    | (b, t') => watch_loop_partial t' r (aset k b w)
+                    end
+  | _ :: _ => (t, w, false)
+  end.
+
+Definition with_tx (cn : conn) (intx : bool) (q : list (list frame)) (w : list (bytes * Z)) : conn :=
+  {| c_db := c_db cn; c_auth := c_auth cn; c_intx := intx; c_queue := q; c_watched := w;
+     c_closing := c_closing cn |}.
+
+(** process_frame *)
 Definition process_frame (now : Z) (s : server) (c : Z) (req : frame) (oracle : option frame)
   : frame * server :=
   match req with
-  | FArray (FBulk nm :: rest) =>
-      match zlookup c (s_conns s) with
-      | None => (r_err, s)
-      | Some cn => normal_command now s c (c_db cn) (FBulk nm :: rest) oracle
+  | FArray (first :: rest) =>
+      match first with
+      | FBulk nm =>
+          let parts := first :: rest in
+          let command := upper (trim nm) in
+          match zlookup c (s_conns s) with
+          | None => (r_err, s)
+          | Some cn =>
+              (* authentication gate *)
+              if (match s_password s with Some _ => true | None => false end) && negb (c_auth cn) then
+                if beq command (bs "AUTH") then h_auth s c parts
+                else if beq command (bs "PING") then
+                  (match parts with _ :: a :: _ => a | _ => FSimple (bs "PONG") end, s)
+                else if beq command (bs "QUIT") then (r_ok, s)
+                else (FError (bs "NOAUTH"), s)
+              else if beq command (bs "MULTI") then
+                if c_intx cn then (r_err, s)
+                else (r_ok, set_conn s c (with_tx cn true [] (c_watched cn)))
+              else if beq command (bs "EXEC") then h_exec now s c cn
+              else if beq command (bs "DISCARD") then
+                if negb (c_intx cn) then (r_err, s) else (r_ok, set_conn s c (clear_tx cn))
+              else if beq command (bs "WATCH") then
+                if len parts <? 2 then (r_err, s)
+                else if c_intx cn then (r_err, s)
+                else match watch_loop_partial (get_trk s (c_db cn)) rest (c_watched cn) with
+                     | (t', w', okb) =>
+                         (if okb then r_ok else r_err,
+                          set_conn (set_trk s (c_db cn) t') c (with_tx cn (c_intx cn) (c_queue cn) w'))
+                     end
+              else if beq command (bs "UNWATCH") then
+                let t' := fold_left (fun t kb => unregister_watch t (fst kb)) (c_watched cn) (get_trk s (c_db cn)) in
+                (r_ok, set_conn (set_trk s (c_db cn) t') c (with_tx cn (c_intx cn) (c_queue cn) []))
+              else if beq command (bs "AUTH") then h_auth s c parts
+              else if c_intx cn && negb (mem_name command tx_not_queued) then
+                (FSimple (bs "QUEUED"), set_conn s c (with_tx cn true (c_queue cn ++ [parts]) (c_watched cn)))
+              else normal_command now s c (c_db cn) parts oracle
+          end
+      | _ => (r_err, s)           (* "ERR invalid command format" *)
       end
-  | FArray (_ :: _) => (r_err, s)
-  | _ => (r_err, s)
+  | _ => (r_err, s)               (* "ERR invalid request format" *)
+  end.
+
+(** ---- pub/sub at the server level (server.rs handle_publish / handle_subscribe /
+    handle_unsubscribe / handle_psubscribe / handle_punsubscribe; frames of pubsub.rs) ----
+    These five commands are dispatched in process_frame after the transaction-control commands
+    and before AUTH and the queueing test (so they run immediately inside MULTI: class
+    tx-immediate).  Their handlers write frames straight into connection write buffers
+    ([direct]: pushed messages to subscribers - possibly the issuing connection itself - and
+    the confirmations to the issuer) and return a frame ([resp]: the PUBLISH count, or
+    NoResponse) that the connection loop appends after them. *)
+Definition msg_frame (ch msg : bytes) : frame :=
+  FArray [FBulk (bs "message"); FBulk ch; FBulk msg].
+Definition pmsg_frame (p ch msg : bytes) : frame :=
+  FArray [FBulk (bs "pmessage"); FBulk p; FBulk ch; FBulk msg].
+Definition ack_frame (kind name : bytes) (n : Z) : frame := FArray [FBulk kind; FBulk name; FInt n].
+Definition ack_nil_frame (kind : bytes) (n : Z) : frame := FArray [FBulk kind; FNullBulk; FInt n].
+Definition push_frame (ch msg : bytes) (r : receiver) : Z * frame :=
+  (fst r, match snd r with Some p => pmsg_frame p ch msg | None => msg_frame ch msg end).
+
+Fixpoint all_bulk (l : list frame) : option (list bytes) :=
+  match l with
+  | [] => Some []
+  | FBulk b :: r => match all_bulk r with Some bs' => Some (b :: bs') | None => None end
+  | _ :: _ => None
+  end.
+Definition has_conn (s : server) (c : Z) : bool :=
+  match zlookup c (s_conns s) with Some _ => true | None => false end.
+Definition sub_total (p : pubsub) (c : Z) : Z :=
+  len (si_ch (conn_info p c)) + len (si_pat (conn_info p c)).
+
+(** PUBLISH: one frame per entry of PubSubManager::publish (best effort: a receiver id without
+    a connection is skipped), reply = number of entries *)
+Definition h_publish (s : server) (parts : list frame) : list (Z * frame) * frame * server :=
+  match parts with
+  | [_; FBulk ch; FBulk msg] =>
+      let rc := publish (s_pubsub s) ch in
+      (map (push_frame ch msg) (filter (fun r => has_conn s (fst r)) rc), FInt (len rc), s)
+  | _ => ([], r_err, s)           (* arity, "invalid channel format", "invalid message format" *)
+  end.
+
+Definition h_sub (chan : bool) (s : server) (c : Z) (parts : list frame)
+  : list (Z * frame) * frame * server :=
+  if len parts <? 2 then ([], r_err, s) else
+  match all_bulk (tl parts) with
+  | None => ([], r_err, s)
+  | Some names =>
+      let kind := if chan then bs "subscribe" else bs "psubscribe" in
+      match (if chan then subscribe (s_pubsub s) c names else psubscribe (s_pubsub s) c names) with
+      | (rs, p') => (map (fun r => (c, ack_frame kind (r_name r) (r_count r))) rs, FNoResponse, set_pubsub s p')
+      end
+  end.
+
+(** after 68e2e20: when PubSubManager returns no result (nothing to unsubscribe from) the
+    handler still confirms - per requested name with the remaining count, or a single
+    [kind, nil, remaining] when none was named *)
+Definition h_unsub (chan : bool) (s : server) (c : Z) (parts : list frame)
+  : list (Z * frame) * frame * server :=
+  let kind := if chan then bs "unsubscribe" else bs "punsubscribe" in
+  match (match tl parts with [] => Some None | l => option_map Some (all_bulk l) end) with
+  | None => ([], r_err, s)
+  | Some req =>
+      match (if chan then unsubscribe (s_pubsub s) c req else punsubscribe (s_pubsub s) c req) with
+      | (rs, p') =>
+          let s' := set_pubsub s p' in
+          match rs with
+          | [] =>
+              let remaining := sub_total p' c in
+              (match req with
+               | Some l => map (fun n => (c, ack_frame kind n remaining)) l
+               | None => [(c, ack_nil_frame kind remaining)]
+               end, FNoResponse, s')
+          | _ => (map (fun r => (c, ack_frame kind (r_name r) (r_count r))) rs, FNoResponse, s')
+          end
+      end
+  end.
+
+(** Closing connections (QUIT, protocol error, EOF read from the client): cleanup_connections
+    removes them at the end of the same loop iteration, together with their subscriptions
+    (after the repair 4bdfa3e it no longer skips connections that are still subscribed) *)
+Definition close_conn (s : server) (c : Z) : server := del_conn s c.
+
+(** process_frame with the pub/sub commands: (frames written directly into connection buffers,
+    in order; the frame returned to the connection loop; state) *)
+Definition process_frame_x (now : Z) (s : server) (c : Z) (req : frame) (oracle : option frame)
+  : list (Z * frame) * frame * server :=
+  let other := match process_frame now s c req oracle with (r, s') => ([], r, s') end in
+  match req with
+  | FArray (FBulk nm :: rest) =>
+      let parts := FBulk nm :: rest in
+      let command := upper (trim nm) in
+      match zlookup c (s_conns s) with
+      | None => other
+      | Some cn =>
+          if (match s_password s with Some _ => true | None => false end) && negb (c_auth cn) then other
+          else if beq command (bs "PUBLISH") then h_publish s parts
+          else if beq command (bs "SUBSCRIBE") then h_sub true s c parts
+          else if beq command (bs "PSUBSCRIBE") then h_sub false s c parts
+          else if beq command (bs "UNSUBSCRIBE") then
+            h_unsub true s c parts
+          else if beq command (bs "PUNSUBSCRIBE") then
+            h_unsub false s c parts
+          else other
+      end
+  | _ => other
+  end.
+
+(** what one request read alone produces: the frames for the issuing connection, in order
+    (pushed messages it receives itself, confirmations, then the reply unless NoResponse), and
+    the frames pushed to other connections, in order *)
+Definition own_frames (c : Z) (direct : list (Z * frame)) (resp : frame) : list frame :=
+  map snd (filter (fun e => fst e =? c) direct) ++ (match resp with FNoResponse => [] | r => [r] end).
+Definition other_frames (c : Z) (direct : list (Z * frame)) : list (Z * frame) :=
+  filter (fun e => negb (fst e =? c)) direct.
+Definition process_frame_multi (now : Z) (s : server) (c : Z) (req : frame) (oracle : option frame)
+  : list frame * list (Z * frame) * server :=
+  match process_frame_x now s c req oracle with
+  | (direct, resp, s') => (own_frames c direct resp, other_frames c direct, s')
+  end.
+
+(** the connection loop's special case: QUIT answers, then the connection is closed *)
+Definition is_quit (req : frame) : bool :=
+  match req with
+  | FArray (FBulk nm :: _) => beq (upper nm) (bs "QUIT")
+  | _ => false
   end.
 
 (** canonical form of replies, mirrored by the harness: errors compared by
@@ -123,7 +559,7 @@ Fixpoint canon (f : frame) : frame :=
   | _ => f
   end.
 Definition canon_reply (name : bytes) (f : frame) : frame :=
-  let f := canon f in
+  let f := canon_streams name (canon f) in
   if beq name (bs "TTL") || beq name (bs "PTTL") then
     match f with FInt n => if 0 <? n then FInt 1 else f | _ => f end
   else f.
